@@ -1035,4 +1035,169 @@ theorem insIdx_le (n : Nat) (k : Int) : insIdx n k ≤ n := by
   unfold insIdx
   by_cases hk : k < 0 <;> simp only [hk, if_true, if_false] <;> (try split) <;> omega
 
+/-! ### what the `Timer` prints -/
+
+/-- an end event (`on_batch_end` / `on_epoch_end`) after whose user callbacks the flag is set -/
+def endSet (x : Event × Bool) : Bool := x.1.isEnd && x.2
+
+/-- the line the Timer prints when it first sees the flag set at this event -/
+def timerLine : Event → List TimerMsg
+  | .batchEnd e b => [.terminatedBatch e b]
+  | .epochEnd e => [.terminatedEpoch e]
+  | _ => []
+
+/-- the "Training terminated" line of a flagged trace: at its first end event with the flag set -/
+def firstMsg (r : List (Event × Bool)) : List TimerMsg :=
+  match r.find? endSet with
+  | some x => timerLine x.1
+  | none => []
+
+theorem firstMsg_append (r1 r2 : List (Event × Bool)) :
+    firstMsg (r1 ++ r2) = if r1.any endSet then firstMsg r1 else firstMsg r2 := by
+  unfold firstMsg
+  rw [List.find?_append]
+  cases h : r1.find? endSet with
+  | some x =>
+    have : r1.any endSet = true := by
+      rw [List.any_eq_true]
+      exact ⟨x, List.mem_of_find?_eq_some h, List.find?_some h⟩
+    simp [this]
+  | none =>
+    have : r1.any endSet = false := by
+      rw [List.any_eq_false]
+      intro x hx
+      have := List.find?_eq_none.mp h x hx
+      simpa using this
+    simp [this]
+
+theorem firstMsg_of_not_any {r : List (Event × Bool)} (h : r.any endSet = false) : firstMsg r = [] := by
+  unfold firstMsg
+  have : r.find? endSet = none := by
+    rw [List.find?_eq_none]
+    intro x hx
+    rw [List.any_eq_false] at h
+    simpa using h x hx
+  rw [this]
+
+/-- a log segment run from a state with `already_notified = n` to one with `n'` behaves like the Timer: it prints
+the terminated-line of its first flagged end event unless already notified -/
+def TimerSeg (l : List Entry) (n n' : Bool) : Prop :=
+  prints l = (if n then [] else firstMsg (rets l)) ∧ n' = (n || (rets l).any endSet)
+
+theorem TimerSeg.append {l1 l2 : List Entry} {n n1 n2 : Bool} (h1 : TimerSeg l1 n n1) (h2 : TimerSeg l2 n1 n2) :
+    TimerSeg (l1 ++ l2) n n2 := by
+  obtain ⟨a1, a2⟩ := h1
+  obtain ⟨b1, b2⟩ := h2
+  refine ⟨?_, ?_⟩
+  · rw [prints_append, rets_append, a1, b1, a2, firstMsg_append]
+    cases n <;> cases h : (rets l1).any endSet <;> simp [firstMsg_of_not_any, h]
+  · rw [rets_append, List.any_append, b2, a2, Bool.or_assoc]
+
+theorem TimerSeg.nil (n : Bool) : TimerSeg [] n n := by simp [TimerSeg, firstMsg]
+
+theorem TimerSeg.silent {l : List Entry} (n : Bool) (hp : prints l = []) (hr : rets l = []) : TimerSeg l n n := by
+  simp [TimerSeg, hp, hr, firstMsg]
+
+section timerprints
+variable (c : Cfg) (R : Req)
+
+theorem dispatch_timerSeg (ev : Event) (s : S) (hev : ev ≠ .trainEnd) :
+    TimerSeg (dispatch (c.withTimer true) R ev s).1 s.notified (dispatch (c.withTimer true) R ev s).2.notified := by
+  unfold TimerSeg
+  rw [dispatch_rets]
+  unfold dispatch Cfg.withTimer
+  simp only [if_true, prints_emit, prints_append, (dispatchCbs_proj R ev s.ver c.cbs s.stop).2.2.2.1, List.nil_append,
+    dispatchCbs_stop, reqEv]
+  cases ev with
+  | trainEnd => exact absurd rfl hev
+  | batchEnd e b =>
+    cases hn : s.notified <;> cases hs : (s.stop || c.cbs.any fun i => R.cb i (.batchEnd e b)) <;>
+      simp [timerHandle, firstMsg, endSet, Event.isEnd, timerLine, *]
+  | epochEnd e =>
+    cases hn : s.notified <;> cases hs : (s.stop || c.cbs.any fun i => R.cb i (.epochEnd e)) <;>
+      simp [timerHandle, firstMsg, endSet, Event.isEnd, timerLine, *]
+  | trainStart => cases hn : s.notified <;> simp [timerHandle, firstMsg, endSet, Event.isEnd]
+  | epochStart e => cases hn : s.notified <;> simp [timerHandle, firstMsg, endSet, Event.isEnd]
+  | batchStart e b => cases hn : s.notified <;> simp [timerHandle, firstMsg, endSet, Event.isEnd]
+
+theorem batchStep_timerSeg (e : Int) (b : Nat) (s : S) :
+    TimerSeg (batchStep (c.withTimer true) R e b s).1 s.notified (batchStep (c.withTimer true) R e b s).2.notified := by
+  unfold batchStep
+  have h1 := dispatch_timerSeg c R (.batchStart e b) s (by simp)
+  have h2 := dispatch_timerSeg c R (.batchEnd e b)
+    { (dispatch (c.withTimer true) R (.batchStart e b) s).2 with
+      stop := (dispatch (c.withTimer true) R (.batchStart e b) s).2.stop || R.mid e b,
+      ver := (dispatch (c.withTimer true) R (.batchStart e b) s).2.ver + 1 } (by simp)
+  have h3 : TimerSeg [Entry.optStep e b] (dispatch (c.withTimer true) R (.batchStart e b) s).2.notified
+      (dispatch (c.withTimer true) R (.batchStart e b) s).2.notified := TimerSeg.silent _ rfl rfl
+  have := (h1.append h3).append h2
+  simpa [List.append_assoc] using this
+
+theorem batchLoop_timerSeg (e : Int) (bs : List Nat) (s : S) :
+    TimerSeg (batchLoop (c.withTimer true) R e bs s).1 s.notified (batchLoop (c.withTimer true) R e bs s).2.notified := by
+  induction bs generalizing s with
+  | nil => simpa [batchLoop] using TimerSeg.nil s.notified
+  | cons b rest ih =>
+    cases h : (batchStep (c.withTimer true) R e b s).2.stop
+    · rw [batchLoop_cons_go _ R e b rest s h]
+      exact (batchStep_timerSeg c R e b s).append (ih _)
+    · rw [batchLoop_cons_stop _ R e b rest s h]; exact batchStep_timerSeg c R e b s
+
+theorem schedPhase_timerSeg (e : Int) (s : S) :
+    TimerSeg (schedPhase (c.withTimer true) e s).1 s.notified (schedPhase (c.withTimer true) e s).2.notified := by
+  unfold schedPhase
+  split
+  · exact TimerSeg.silent _ rfl rfl
+  · exact TimerSeg.nil _
+
+theorem runEpoch_timerSeg (e : Int) (s : S) :
+    TimerSeg (runEpoch (c.withTimer true) R e s).1 s.notified (runEpoch (c.withTimer true) R e s).2.notified := by
+  unfold runEpoch
+  have h0 : TimerSeg [Entry.shuffle e] s.notified s.notified := TimerSeg.silent _ rfl rfl
+  have h1 := dispatch_timerSeg c R (.epochStart e) s (by simp)
+  have h2 := batchLoop_timerSeg c R e (List.range (c.withTimer true).numBatches) (dispatch (c.withTimer true) R (.epochStart e) s).2
+  have h3 := schedPhase_timerSeg c e (batchLoop (c.withTimer true) R e (List.range (c.withTimer true).numBatches)
+    (dispatch (c.withTimer true) R (.epochStart e) s).2).2
+  have h4 := dispatch_timerSeg c R (.epochEnd e) (schedPhase (c.withTimer true) e (batchLoop (c.withTimer true) R e
+    (List.range (c.withTimer true).numBatches) (dispatch (c.withTimer true) R (.epochStart e) s).2).2).2 (by simp)
+  have := (((h0.append h1).append h2).append h3).append h4
+  simpa [List.append_assoc] using this
+
+theorem epochLoop_timerSeg (es : List Int) (s : S) :
+    TimerSeg (epochLoop (c.withTimer true) R es s).1 s.notified (epochLoop (c.withTimer true) R es s).2.notified := by
+  induction es generalizing s with
+  | nil => simpa [epochLoop] using TimerSeg.nil s.notified
+  | cons e rest ih =>
+    cases h : (runEpoch (c.withTimer true) R e s).2.stop
+    · rw [epochLoop_cons_go _ R e rest s h]
+      exact (runEpoch_timerSeg c R e s).append (ih _)
+    · rw [epochLoop_cons_stop _ R e rest s h]; exact runEpoch_timerSeg c R e s
+
+theorem dispatch_trainEnd_prints (s : S) :
+    prints (dispatch (c.withTimer true) R .trainEnd s).1 = [.total] := by
+  unfold dispatch Cfg.withTimer
+  simp [timerHandle, (dispatchCbs_proj R .trainEnd s.ver c.cbs s.stop).2.2.2.1]
+
+/-- what the Timer prints in a run that was not silent: the terminated-line of the first end event (before train-end) after
+whose user callbacks the flag is set, then the elapsed-time line -/
+theorem fit_prints :
+    ∃ pre, rets (fit (c.withTimer true) R false).1 = pre ++ [(.trainEnd, (fit (c.withTimer true) R false).2.stop)] ∧
+      prints (fit (c.withTimer true) R false).1 = firstMsg pre ++ [.total] := by
+  have key : ∀ (A : List Entry) (sE : S), prints A = firstMsg (rets A) →
+      ∃ pre, rets (A ++ (dispatch (c.withTimer true) R .trainEnd sE).1) =
+          pre ++ [(.trainEnd, (dispatch (c.withTimer true) R .trainEnd sE).2.stop)] ∧
+        prints (A ++ (dispatch (c.withTimer true) R .trainEnd sE).1) = firstMsg pre ++ [.total] := by
+    intro A sE hA
+    refine ⟨rets A, ?_, ?_⟩
+    · rw [rets_append, dispatch_rets, dispatch_stop]
+    · rw [prints_append, hA, dispatch_trainEnd_prints]
+  unfold fit
+  simp only [Bool.false_eq_true, if_false]
+  have h1 := dispatch_timerSeg c R .trainStart { stop := false, notified := false, ver := 0, sched := 0 } (by simp)
+  have h2 := epochLoop_timerSeg c R (epochRange (c.withTimer true).start (c.withTimer true).epochs)
+    (dispatch (c.withTimer true) R .trainStart { stop := false, notified := false, ver := 0, sched := 0 }).2
+  obtain ⟨p1, _⟩ := h1.append h2
+  exact key _ _ (by simpa using p1)
+end timerprints
+
 end QV.Train
